@@ -379,7 +379,13 @@ func TestPropValidity(t *testing.T) {
 		// bad-metrics report: every rejected parseable line under its name, with the last rejected text and a reason
 		if len(lastBad) > 0 {
 			deadline := time.Now().Add(10 * time.Second)
+			// the report is a query with a window (the admin UI asks for the last minute, ten minutes, hour ...): asking for a
+			// narrow window first must not change what a wider one shows afterwards
+			window := time.Duration(rapid.SampledFrom([]int{0, 0, 1, 1000, 1000000, 3600000000}).Draw(t, "firstWindowUs")) * time.Microsecond
 			for {
+				if window > 0 {
+					tab.Bad().Get(window)
+				}
 				recs := map[string][2]string{}
 				for _, r := range tab.Bad().Get(time.Hour) {
 					recs[r.Metric] = [2]string{r.LastMsg, r.LastErr}
